@@ -28,6 +28,7 @@ def abandon_scenario(viol, known_hit, stats):
         time.sleep(1.0)
         stats["runs"] += 1
         ans, ev = sched.replay_locks(rs[0].trace)
+        sched.runloop_check("C06", "abandon", rs[0].trace, viol, stats)
         over, counts = sched.target_overlaps(sched.parse_work(pr.path(".verif-work")))
         left = [f for f in os.listdir(pr.root) if f.endswith(".redo.tmp")]
         bad = (not ans.startswith("ok")) or over or left
@@ -59,6 +60,7 @@ def failfast_scenario(viol, stats):
             time.sleep(0.3)
             stats["runs"] += 1
             ans, ev = sched.replay_locks(rs[0].trace)
+            sched.runloop_check("C06", "failfast", rs[0].trace, viol, stats)
             over, counts = sched.target_overlaps(sched.parse_work(pr.path(".verif-work")))
             left = [f for f in os.listdir(pr.root) if f.endswith(".redo.tmp")]
             if (not ans.startswith("ok")) or over or left or any(r.timed_out for r in rs):
@@ -86,6 +88,7 @@ def oob_scenario(viol, stats):
         stats["runs"] += 2
         stats["oob_jobs"] = stats.get("oob_jobs", 0) + sum(1 for e in rs[0].trace if e[2] == "job.oob")
         ans, ev = sched.replay_locks(rs[0].trace)
+        sched.runloop_check("C06", "oob", rs[0].trace, viol, stats)
         over, counts = sched.target_overlaps(sched.parse_work(pr.path(".verif-work")))
         bad = r0.rc != 0 or any(r.rc != 0 or r.timed_out for r in rs) or over or not ans.startswith("ok") or pr.read("T") != b"2\n2\n"
         if bad:
@@ -146,6 +149,7 @@ def run(ctx):
             stats["runs"] += 1
             stats["invocations"] += k
             ans, ev = sched.replay_locks(rs[0].trace)
+            sched.runloop_check("C06", "random", rs[0].trace, viol, stats)
             stats["events"] += len(ev)
             stats["contended"] += sum(1 for e in ev if e.startswith("lf,"))
             stats["failing"] += sum(1 for r in rs if r.rc != 0)
@@ -180,6 +184,7 @@ def run(ctx):
                 stats["second_rounds"] = stats.get("second_rounds", 0) + 1
                 stats["oob_jobs"] = stats.get("oob_jobs", 0) + sum(1 for e in rs2[0].trace if e[2] == "job.oob")
                 ans2, ev2 = sched.replay_locks(rs2[0].trace)
+                sched.runloop_check("C06", "second-round", rs2[0].trace, viol, stats)
                 over2, counts2 = sched.target_overlaps(rs2[0].work)
                 scen2 = dict(scen, second_round=cmds2, changed=low + ".do", stamped=stamped)
                 if over2:
